@@ -104,6 +104,7 @@ func main() {
 		verbose    = flag.Bool("v", false, "print every obligation")
 		list       = flag.Bool("list", false, "list rules and property mapping")
 		manifest   = flag.Bool("manifest", false, "print MANIFEST.json generated from the property table")
+		anchors    = flag.Bool("anchors", false, "developer aid: run all rules and print the anchor table (anchors.go)")
 		describe   = flag.String("describe", "", "developer aid: print canonical descriptions of the calls/stores of pkg:Func")
 	)
 	flag.Parse()
@@ -220,6 +221,10 @@ func main() {
 			}
 			rd := registry[name]
 			runRule(ctx, rd, *tier)
+		}
+		if *anchors {
+			dumpAnchors(ctx)
+			return
 		}
 		known, err := loadKnown(filepath.Join(root, "known_findings.json"))
 		if err != nil {
